@@ -53,6 +53,7 @@ func c16Equal(a, b any) bool { return gojq.Compare(a, b) == 0 }
 // documents: JSON texts of every nesting form the stream state machine distinguishes
 var c16Docs = []string{
 	`1`, `"s"`, `null`, `[]`, `{}`, `[1]`, `[1,2]`, `{"a":1}`, `{"b":1,"a":2}`, `[[]]`, `[{}]`, `{"a":[]}`, `{"a":{}}`, `[[1],2]`, `[[1,[2]],3]`, `{"a":{"b":1},"c":2}`,
+	`[12345678901234567890, 1.10, 100000000000000000000001]`, `{"id":9007199254740993}`, `[1e1000, -0, 1.0]`,
 	`[{"a":1},{"b":[2,3]}]`, `{"z":[1,{"y":null}],"a":"x"}`, `[[[1]]]`, `[1,[],{},2]`, `{"a":[1,2],"b":[3]}`, ` [ 1 , { "k" : [ true , false ] } ] `, `[[],[[]],[[],[]]]`, `{"a":{"b":{"c":{}}}}`,
 }
 
@@ -94,6 +95,10 @@ func H_C16_stream() {
 	vassert(c16Equal(c16Run(leaves, events)[0], c16Run(leaves, want)[0]), "the leaf events equal those of tostream up to order")
 	if !strings.Contains(doc, `"b":1,"a":2`) && !strings.Contains(doc, `"z"`) {
 		vassert(c16Equal(events, want), "for documents with sorted keys the events equal tostream in order")
+		// ... and print alike: numbers keep the digits they had in the document
+		te, err1 := gojq.Marshal(events)
+		tw, err2 := gojq.Marshal(want)
+		vassert(err1 == nil && err2 == nil && string(te) == string(tw), "streamed events print exactly as the events of tostream (numbers keep their digits)")
 	}
 	vreach("whole")
 	// truncation at a symbolic byte position
